@@ -164,6 +164,7 @@ class MUBInfo:
     def copy(self):
         result = copy.copy(self)
         result.circuits = [circuit.copy() for circuit in self.circuits]
+        result.mubs = [list(mub) for mub in self.mubs]
         return result
 
 stabilizer_file_cache = {}
